@@ -3,7 +3,7 @@
 set -eu
 ROOT="$(cd "$(dirname "${BASH_SOURCE[0]}")" && pwd)"
 export CARGO_NET_OFFLINE=true
-TARGET="${VERIF_TARGET:-/verif/target}"
+TARGET="${VERIF_TARGET:-$ROOT/target}"
 mkdir -p "$TARGET" "$ROOT/evidence" "$ROOT/replays"
 for key in $(jq -r '.engines[].path' "$ROOT/MANIFEST.json"); do
   echo "== building $key"
